@@ -216,7 +216,30 @@ def replay_file(prop, path):
     return 0
 
 
+def sweep_stale_scratch():
+    """remove scratch trees left behind by processes that no longer exist"""
+    import re
+    import shutil
+    base = os.environ.get("VERIF_SCRATCH", "/dev/shm")
+    try:
+        names = os.listdir(base)
+    except OSError:
+        return
+    for n in names:
+        m = re.match(r"verif-(?:part-)?0*(\d+)-", n)
+        if not m:
+            continue
+        try:
+            os.kill(int(m.group(1)), 0)
+        except ProcessLookupError:
+            p = os.path.join(base, n)
+            shutil.rmtree(p, ignore_errors=True) if os.path.isdir(p) else os.unlink(p)
+        except OSError:
+            pass
+
+
 def main(prop, tier, seed, workers=None, runs_override=None):
+    sweep_stale_scratch()
     mod = load_check(prop)
     t0 = time.time()
     cfg = dict(mod.TIERS[tier])
